@@ -511,7 +511,7 @@ class Scenario(object):
     """Finite facts a path depends on."""
     def __init__(self, name='', bind=None, axioms=None, inline=None, inline_props=None, max_depth=3, self_cls=None,
                  args=None, unroll=None, oracle=None, forward_stores=True, model_del=True, join_unknown=False,
-                 canonical_objs=False, decide_filters=False, raises=None):
+                 canonical_objs=False, decide_filters=False, raises=None, extended=False):
         self.name = name
         self.bind = bind or {}            # dotted path -> Val
         self.axioms = axioms or {}        # normalised condition text -> bool
@@ -526,6 +526,8 @@ class Scenario(object):
         self.model_del = model_del        # del buf[:n] rebinds buf to the remaining octets (False for reader-sequence extraction)
         self.join_unknown = join_unknown  # undecided `if`: run both arms and join the normal exits (call/store sets are united)
         self.canonical_objs = canonical_objs   # locally constructed objects are named <Class> / <Class#k> instead of after their local variable
+        self.extended = extended          # opt-in value models whose result TEXT differs from the opaque rendering other rules read:
+                                          # lookups in dict displays with constant keys are decided, <int>.to_bytes(n, 'big') is INT(n; x)
         self.decide_filters = decide_filters   # comprehension filters the scenario decides are applied (True: dropped, False: empty result)
         self.raises = raises              # callable(call text) -> exception text | None: calls the scenario says raise (the statement
                                           # ends the path with status 'raise' in the state reached so far; an enclosing try may catch it)
@@ -1262,7 +1264,7 @@ class Frame(object):
             return None
         if isinstance(op, (ast.In, ast.NotIn)):
             neg = isinstance(op, ast.NotIn)
-            if isinstance(r, DictV):
+            if isinstance(r, DictV) and self.sc.extended:
                 hit = r.lookup(l)
                 if hit is not False:
                     return (hit is None) if neg else (hit is not None)
@@ -1869,7 +1871,7 @@ class Frame(object):
                 return Bytes([mk_slice(merge_consts(base.items), lo, hi)])
             return Bytes([mk_slice(render(base), lo, hi)])
         idx = self.ev(sl, st)
-        if isinstance(base, DictV):
+        if isinstance(base, DictV) and self.sc.extended:
             hit = base.lookup(idx)
             if hit is not None and hit is not False:
                 return hit
@@ -2007,7 +2009,7 @@ class Frame(object):
                     o = kwargs.get('order', args[2] if len(args) > 2 else None)
                     return Bytes([('SYM', 'int_to_bytes(%s, %s, %s)' % (render(args[0]), render(w), render(o)))])
                 return Bytes([('INT', render(w), render(args[0]))])
-            if meth == 'to_bytes' and not isinstance(recv, (Bytes, ListV, Obj, Hasher)):
+            if meth == 'to_bytes' and self.sc.extended and not isinstance(recv, (Bytes, ListV, Obj, Hasher)):
                 # <int>.to_bytes(n, 'big') is the n-octet big-endian integer, the same term int_to_bytes(x, n) denotes
                 ln = args[0] if args else kwargs.get('length')
                 bo = args[1] if len(args) > 1 else kwargs.get('byteorder', Const('big') if ln is not None else None)
@@ -2067,7 +2069,7 @@ class Frame(object):
                     recv.elems.append(args[0])
                     record(ftext)
                     return Const(None)
-            if isinstance(recv, DictV) and meth == 'get' and 1 <= len(args) <= 2 and not kwargs:
+            if isinstance(recv, DictV) and self.sc.extended and meth == 'get' and 1 <= len(args) <= 2 and not kwargs:
                 hit = recv.lookup(args[0])
                 if hit is not False:
                     record(ftext)
